@@ -174,13 +174,33 @@ func StartNode(p NodeParams) *Node {
 	if p.Neighbors == nil {
 		p.Neighbors = func(string, *jobpb.NodeIdentity) proto.Operator { return &proto.UnimplementedOperator{} }
 	}
-	n.Op = operator.NewOperator(operator.NewOperatorParams{ID: p.ID, Host: "host-" + p.ID, Job: p.Job, UserHandler: p.Handler,
+	reg := &regWaiter{Job: p.Job, first: make(chan struct{})}
+	n.Op = operator.NewOperator(operator.NewOperatorParams{ID: p.ID, Host: "host-" + p.ID, Job: reg, UserHandler: p.Handler,
 		EventBatching: bp, Clock: clocks.NewFrozenClock(), NeighborOperatorFactory: p.Neighbors})
 	n.Op.Logger = QuietLog
 	ctx, cancel := context.WithCancel(context.Background())
 	n.cancel = cancel
 	go func() { n.done <- n.Op.Start(ctx) }()
+	// Start registers with the job once it has set itself up (stop function, pollers): nothing is done to the
+	// operator before that, so that a Halt right after StartNode does not race with Start's own initialisation
+	// (Halt is the repository's test hook for a crash; no production path calls it on a starting operator).
+	select {
+	case <-reg.first:
+	case <-time.After(Watchdog):
+	}
 	return n
+}
+
+// regWaiter signals the operator's first registration call.
+type regWaiter struct {
+	proto.Job
+	once  sync.Once
+	first chan struct{}
+}
+
+func (r *regWaiter) RegisterOperator(ctx context.Context, n *jobpb.NodeIdentity) error {
+	r.once.Do(func() { close(r.first) })
+	return r.Job.RegisterOperator(ctx, n)
 }
 
 // Deploy deploys the operator as member `ids[idx]` of the assembly.
